@@ -101,6 +101,7 @@ class Result:
         self.warnings = []
         self.canary_ok = None
         self.raw_tail = ""
+        self.partial = ""
 
     @property
     def failed(self):
@@ -181,19 +182,80 @@ def prove(workdir, name, c_text, entry, enforce=None, replace=(), loop_contracts
     # the default 8 object bits are much faster than 12 (SplitString: 36 s vs > 300 s); widen only on demand
     for ob in ([object_bits] if object_bits else [None, 10, 12, 16]):
         cmdl = cb + (["--object-bits", str(ob)] if ob else []) + [c]
-        if solver in ("portfolio", "portfolio3"):
-            cands = [cmdl, cmdl[:1] + ["--sat-solver", "cadical"] + cmdl[1:]]
-            if solver == "portfolio3":
-                cands.append(cmdl[:1] + ["--cvc5"] + cmdl[1:])
-            p = _race(cands, timeout, mem_gb, res)
-        else:
-            p = _run(cmdl, timeout, mem_gb, res.cmds)
+        try:
+            p = _solve(cmdl, solver, timeout, mem_gb, res)
+        except Undecided as e:
+            # the full obligation set timed out: a second, short pass over the safety obligations only (overflow, pointer,
+            # bounds, shift, division) so that a definite failure among them is still reported
+            fb = _safety_only(cb + (["--object-bits", str(ob)] if ob else []), c, mem_gb, res)
+            if fb is None:
+                raise
+            res.partial = "full run timed out (%s); only the %d safety obligations were decided in a second pass" % (e, len(fb))
+            res.props = fb
+            res.canary_ok = True     # vacuity is not the question here: a safety obligation definitely fails
+            res.wall_s = time.time() - t0
+            return res
         if "too many addressed objects" in p.stdout and not object_bits:
             continue
         break
     res.wall_s = time.time() - t0
     out = p.stdout
     res.raw_tail = out[-2000:]
+    return _parse(res, p, out, trace)
+
+
+def _solve(cmdl, solver, timeout, mem_gb, res):
+    if True:
+        if solver in ("portfolio", "portfolio3"):
+            cands = [cmdl, cmdl[:1] + ["--sat-solver", "cadical"] + cmdl[1:]]
+            if solver == "portfolio3":
+                cands.append(cmdl[:1] + ["--cvc5"] + cmdl[1:])
+            return _race(cands, timeout, mem_gb, res)
+        return _run(cmdl, timeout, mem_gb, res.cmds)
+
+
+SAFETY_CLASSES = ("overflow", "pointer_dereference", "pointer_arithmetic", "array_bounds", "undefined-shift", "division-by-zero", "pointer_primitives")
+
+
+def _safety_only(cb, gb, mem_gb, res, budget=240):
+    try:
+        lp = subprocess.run(["cbmc", "--no-standard-checks", "--show-properties", "--json-ui", gb], stdout=subprocess.PIPE,
+                            stderr=subprocess.PIPE, text=True, timeout=120)
+        data = json.loads(lp.stdout)
+    except Exception:
+        return None
+    names = []
+    for it in data:
+        if isinstance(it, dict) and "properties" in it:
+            for pr in it["properties"]:
+                n = pr.get("name", "")
+                if any(("." + c + ".") in n for c in SAFETY_CLASSES) and not n.startswith("__CPROVER") and "library" not in pr.get("sourceLocation", {}).get("file", ""):
+                    names.append(n)
+    if not names:
+        return None
+    cmd = [x for x in cb if x != "--trace"]
+    for n in names:
+        cmd += ["--property", n]
+    cmd.append(gb)
+    try:
+        p = _run(cmd, budget, mem_gb, res.cmds)
+        data = json.loads(p.stdout)
+    except Exception:
+        return None
+    props = []
+    for item in data:
+        if isinstance(item, dict) and "result" in item:
+            for r in item["result"]:
+                sl = r.get("sourceLocation", {})
+                props.append({"name": r.get("property", ""), "description": r.get("description", ""), "status": r.get("status", ""),
+                              "file": sl.get("file", ""), "line": sl.get("line", ""), "function": sl.get("function", "")})
+    if not any(p_["status"] == "FAILURE" for p_ in props):
+        return None      # nothing definite: stay undecided
+    props.append({"name": "XC_CANARY.fallback", "description": "XC_CANARY not run in the safety-only pass", "status": "FAILURE", "file": "", "line": "", "function": ""})
+    return props
+
+
+def _parse(res, p, out, trace):
     try:
         data = json.loads(out)
     except Exception:
